@@ -20,6 +20,11 @@ def convert(raw, sid):
     # (programmes that address children by name alone keep distinct names)
     twin = raw["scope"] == "ClNs" and raw["prog"] in ("none", "first", "all", "badlabel", "ownedref") and len(names) >= 2
 
+    # variant: the hook hands a status back inside every desired child (as hooks that echo what they read tend to do)
+    import re as _re
+    _m = _re.search(r"-(\d+)", sid)
+    withstatus = raw["prog"] in ("all", "first") and _m is not None and int(_m.group(1)) % 3 == 0
+
     def loc(n):
         if twin and n == names[1]:
             return "ns2", names[0]
@@ -99,6 +104,8 @@ def convert(raw, sid):
             d["ns"] = loc(name)[0]     # a cluster-scoped parent must say where its namespaced children live
         if sc["top"] == "spec":
             d["spec"] = {"f1": "v1"}
+            if withstatus:
+                d["status"] = {"ready": "yes"}      # the status the "status" archetype carries: not part of the desired state
         else:
             d["top"] = {"data": {"f1": "v1"}}
         return d
